@@ -9,7 +9,36 @@ def is_ground(out):
     return '(v ' not in sx(out)
 
 
+def case_deep(rep, rnd, i):
+    """finite terms a few hundred levels deep unify like any others"""
+    import yldprolog.engine as E
+    yp = E.YP()
+    n = rnd.choice([260, 300, 330])
+    kind = rnd.choice(['s', 'list'])
+    X = yp.variable()
+
+    def build(leaf):
+        t = leaf
+        for k in range(n):
+            t = yp.functor('s', [t]) if kind == 's' else yp.listpair(yp.atom('e%d' % (k % 3)), t)
+        return t
+    a, b = build(X), build(yp.atom('z'))
+    rep.evaluations += 1
+    rep.count('deep-terms')
+    try:
+        got = [E.to_python(X) for _ in E.unify(a, b)]
+        got2 = [1 for _ in E.unify(build(yp.atom('y')), b)]
+    except RecursionError:
+        rep.count('unspecified-skipped')
+        return
+    if got != ['z'] or got2 != []:
+        rep.violation({'kind': 'terms %d levels deep: unify(t(X), t(z)) yields %r (expected [z]), unify(t(y), t(z)) yields %d times (expected 0)' % (n, got, len(got2)),
+                       'shape': kind, 'depth': n})
+
+
 def case(rep, drv, rnd, i, tier):
+    if i % 40 == 17:
+        return case_deep(rep, rnd, i)
     if i % 4 == 3:
         return case_alternatives(rep, drv, rnd, i)
     nvars, pairs = unif.gen_pairs(rnd)
